@@ -931,6 +931,12 @@ impl Parse {
 
         concatenated.hash(&mut hasher);
 
+        // The concatenation alone is ambiguous ("q" + "1" + "20" == "q1" + "1" + "20"...),
+        // so the fields are hashed separately as well.
+        self.query.hash(&mut hasher);
+        self.num_params.hash(&mut hasher);
+        self.param_types.hash(&mut hasher);
+
         hasher.finish()
     }
 
